@@ -108,6 +108,34 @@ def none_as_missing(ctx, pid, funcs):
           for t in a.targets:
             if isinstance(t, ast.Name):
               bvars.add(t.id)
+    # records reached through a parameter that callers fill with one of the stores, and entries taken from such records in loops
+    def root_of(e):
+      while isinstance(e, (ast.Subscript, ast.Attribute, ast.Call)):
+        e = e.func if isinstance(e, ast.Call) else e.value
+      return e.id if isinstance(e, ast.Name) else ''
+    params = f.params
+    for cf, call in (ctx.prog.call_sites_of(f.qual) if hasattr(ctx.prog, 'call_sites_of') else []):
+      for i_, a_ in enumerate(call.args):
+        if isinstance(a_, ast.Name) and a_.id in USER_VALUE_STORES and i_ < len(params):
+          bvars.add(params[i_])
+    for _ in range(3):
+      for nd in walk_local(f.node):
+        if isinstance(nd, (ast.For, ast.comprehension)):
+          it = nd.iter
+          if isinstance(it, ast.Call) and u(it.func) == 'sorted' and it.args:
+            it = it.args[0]
+          r = root_of(it)
+          if r in USER_VALUE_STORES or r in bvars:
+            tg = nd.target
+            if isinstance(it, ast.Call) and isinstance(it.func, ast.Attribute) and it.func.attr == 'items' and isinstance(tg, ast.Tuple) and len(tg.elts) == 2:
+              if isinstance(tg.elts[1], ast.Name):
+                bvars.add(tg.elts[1].id)
+            elif isinstance(it, ast.Call) and isinstance(it.func, ast.Attribute) and it.func.attr == 'values' and isinstance(tg, ast.Name):
+              bvars.add(tg.id)
+        elif isinstance(nd, ast.Assign) and len(nd.targets) == 1 and isinstance(nd.targets[0], ast.Name) and isinstance(nd.value, ast.DictComp):
+          gen = nd.value.generators[0]
+          if root_of(gen.iter) in USER_VALUE_STORES or root_of(gen.iter) in bvars:
+            bvars.add(nd.targets[0].id)
     defs = {}
     for a in walk_local(f.node):
       if isinstance(a, ast.Assign) and len(a.targets) == 1 and isinstance(a.targets[0], ast.Name):
